@@ -9,6 +9,7 @@ import (
 	"os"
 	"os/exec"
 	"path/filepath"
+	"regexp"
 	"sort"
 	"strings"
 	"sync"
@@ -50,10 +51,41 @@ type nativeResult struct {
 	Harness  string   `json:"harness"`
 	Kind     string   `json:"kind"`
 	Label    string   `json:"label"`
+	Labels   []string `json:"labels"`
 	Msg      string   `json:"msg"`
 	Observes []string `json:"observes"`
 	Covers   []string `json:"covers"`
 	Missing  []string `json:"missing"`
+}
+
+func (n *nativeResult) labels() []string {
+	if len(n.Labels) > 0 {
+		return n.Labels
+	}
+	if n.Label != "" {
+		return []string{n.Label}
+	}
+	return nil
+}
+
+// labelOf returns the first failed oracle of a path that belongs to prop ("" if none).
+func labelOf(h *HarnessDef, labels []string, prop string) string {
+	for _, l := range labels {
+		if h.labelProp(l) == prop {
+			return l
+		}
+	}
+	return ""
+}
+
+func resLabels(r *gosym.PathResult) []string {
+	if len(r.Labels) > 0 {
+		return r.Labels
+	}
+	if r.Label != "" {
+		return []string{r.Label}
+	}
+	return nil
 }
 
 type knownFinding struct {
@@ -281,6 +313,15 @@ func mergeTier(q, t TierCfg) TierCfg {
 	return out
 }
 
+func containsStr(xs []string, x string) bool {
+	for _, y := range xs {
+		if y == x {
+			return true
+		}
+	}
+	return false
+}
+
 func packageName(src []byte) string {
 	for _, line := range strings.Split(string(src), "\n") {
 		line = strings.TrimSpace(line)
@@ -308,7 +349,7 @@ type replayFile struct {
 }
 
 func (c *Check) prepareReplays(runs []*harnessRun) {
-	dir := filepath.Join(verifDir, "replays", c.Prop)
+	dir := filepath.Join(outDir, "replays", c.Prop)
 	os.MkdirAll(dir, 0o755)
 	for _, hr := range runs {
 		if hr.def.NoReplay {
@@ -320,9 +361,17 @@ func (c *Check) prepareReplays(runs []*harnessRun) {
 		for _, r := range hr.ex.Results {
 			switch r.Kind {
 			case "violation":
-				if hr.def.labelProp(r.Label) != c.Prop {
+				lbl := labelOf(&hr.def, resLabels(r), c.Prop)
+				if lbl == "" {
 					hr.otherProp[hr.def.labelProp(r.Label)]++
 					continue
+				}
+				if lbl != r.Label {
+					// report this path under the oracle that belongs to the property checked
+					cp := *r
+					cp.Label = lbl
+					cp.Msg = "assertion failed: " + lbl + " (first failing oracle on the path: " + r.Label + ")"
+					r = &cp
 				}
 				sig := signature(hr.def.Name, r)
 				seen[sig]++
@@ -478,13 +527,18 @@ func (c *Check) runNativeReplays(runs []*harnessRun, overlay map[string][]byte) 
 				if nr == nil || rerr != nil {
 					// the process died: an assertion may have been reported before it did
 					label := ""
+					var all []string
 					for _, line := range strings.Split(string(ro), "\n") {
-						if strings.HasPrefix(line, "VERIF-VIOLATION ") && label == "" {
-							label = strings.TrimSpace(strings.TrimPrefix(line, "VERIF-VIOLATION "))
+						if strings.HasPrefix(line, "VERIF-VIOLATION ") {
+							l := strings.TrimSpace(strings.TrimPrefix(line, "VERIF-VIOLATION "))
+							if label == "" {
+								label = l
+							}
+							all = append(all, l)
 						}
 					}
 					if label != "" {
-						nr = &nativeResult{File: rc.path, Kind: "violation", Label: label, Msg: "process ended after the assertion failed"}
+						nr = &nativeResult{File: rc.path, Kind: "violation", Label: label, Labels: all, Msg: "process ended after the assertion failed"}
 					} else if nr == nil {
 						nr = &nativeResult{File: rc.path, Kind: "crash", Msg: firstLines(string(ro), 12)}
 					}
@@ -552,7 +606,67 @@ func (c *Check) buildOverlay(sel []HarnessDef) (map[string][]byte, []string, err
 			overlay[filepath.Join(repoDir, x.Pkg, "zz_verif_"+filepath.Base(x.File))] = data
 		}
 	}
+	for _, h := range sel {
+		if h.Rewrite == nil {
+			continue
+		}
+		for _, rel := range h.Rewrite.Files {
+			virt := filepath.Join(repoDir, rel)
+			if _, done := overlay[virt]; done {
+				continue
+			}
+			src, err := os.ReadFile(virt)
+			if err != nil {
+				return nil, nil, err
+			}
+			out, err := applyRewrite(src, h.Rewrite)
+			if err != nil {
+				return nil, nil, fmt.Errorf("rewrite %s: %w", rel, err)
+			}
+			overlay[virt] = out
+		}
+	}
 	return overlay, patterns, nil
+}
+
+// applyRewrite inserts the environment seams into one production source file.
+func applyRewrite(src []byte, rw *RewriteDef) ([]byte, error) {
+	text := string(src)
+	for _, rule := range rw.Rules {
+		re, err := regexp.Compile(rule.Re)
+		if err != nil {
+			return nil, err
+		}
+		text = re.ReplaceAllStringFunc(text, func(m string) string {
+			sub := re.FindStringSubmatch(m)
+			if len(sub) > 1 {
+				for _, ex := range rule.Except {
+					if sub[1] == ex {
+						return m
+					}
+				}
+			}
+			return re.ReplaceAllString(m, rule.To)
+		})
+	}
+	// the import goes on the package clause's line so that line numbers are kept
+	pk := regexp.MustCompile(`(?m)^package (\w+)[ \t]*$`)
+	loc := pk.FindStringIndex(text)
+	if loc == nil {
+		return nil, fmt.Errorf("no package clause")
+	}
+	text = text[:loc[1]] + "; import " + rw.Import + text[loc[1]:]
+	var keep []string
+	for _, frag := range sortedKeys(rw.Keep) {
+		if strings.Contains(text, "\""+frag+"\"") {
+			keep = append(keep, "var _ = "+rw.Keep[frag])
+		}
+	}
+	alias := strings.Fields(rw.Import)[0]
+	if !strings.Contains(text[loc[1]+len(rw.Import)+9:], alias+".") {
+		keep = append(keep, "var _ = "+alias+".Cur")
+	}
+	return []byte(text + "\n" + strings.Join(keep, "\n") + "\n"), nil
 }
 
 type evidence struct {
@@ -574,7 +688,7 @@ func (c *Check) writeBroken(msg string) {
 }
 
 func (c *Check) writeEvidence(ev *evidence) {
-	dir := filepath.Join(verifDir, "evidence")
+	dir := filepath.Join(outDir, "evidence")
 	os.MkdirAll(dir, 0o755)
 	data, _ := json.MarshalIndent(ev, "", " ")
 	os.WriteFile(filepath.Join(dir, c.Prop+".json"), append(data, '\n'), 0o644)
@@ -671,10 +785,10 @@ func (c *Check) verdict(runs []*harnessRun, ld *gosym.Loaded, loadS float64) int
 					hr.mismatch = append(hr.mismatch, "no native result for "+rc.path)
 					continue
 				}
-				if nr.Kind == "violation" && nr.Label != "" && hr.def.labelProp(nr.Label) == c.Prop {
+				if nl := labelOf(&hr.def, nr.labels(), c.Prop); nr.Kind == "violation" && nl != "" {
 					// the real build violated an oracle on a model the engine considered fine
 					// (possible under a different goroutine schedule): that is a confirmed violation
-					sig := hr.def.Name + "/" + nr.Label + "/native"
+					sig := hr.def.Name + "/" + nl + "/native"
 					isKnown := false
 					for _, kf := range known {
 						if kf.prop == c.Prop && sigMatch(kf.sig, sig) {
@@ -685,7 +799,7 @@ func (c *Check) verdict(runs []*harnessRun, ld *gosym.Loaded, loadS float64) int
 						sigDone[sig] = true
 						violations++
 						violLines = append(violLines, fmt.Sprintf("VIOLATION property=%s replay=%s", c.Prop, rc.path))
-						notes = append(notes, fmt.Sprintf("  %s: native run of a sampled model violated %s", hr.def.Name, nr.Label))
+						notes = append(notes, fmt.Sprintf("  %s: native run of a sampled model violated %s", hr.def.Name, nl))
 					}
 					continue
 				}
@@ -703,7 +817,7 @@ func (c *Check) verdict(runs []*harnessRun, ld *gosym.Loaded, loadS float64) int
 				if sigDone[sig] {
 					continue
 				}
-				confirmed := nr != nil && ((nr.Kind == "violation" && nr.Label == rc.res.Label) || (nr.Kind == "crash" && rc.res.Label == "panic") || (rc.res.Label == "hang" && nr.Kind == "crash"))
+				confirmed := nr != nil && ((nr.Kind == "violation" && containsStr(nr.labels(), rc.res.Label)) || (nr.Kind == "crash" && rc.res.Label == "panic") || (rc.res.Label == "hang" && nr.Kind == "crash"))
 				if !confirmed {
 					unconfirmed++
 					got := "none"
